@@ -482,6 +482,14 @@ pub fn run(cfg: &Cfg, rep: &mut Rep) {
         for (doy, what) in [("0", "day of year 0"), ("0.5", "day of year below 1"), ("367", "day of year 367"), ("367.5", "day of year 367"), ("999", "day of year 999"), ("400.25", "day of year beyond the year")] {
             check_out_of_range_text(rep, &format!("{:04} {}", y, doy), Some("%Y %J"), what);
         }
+        // the day of year in front of the year (it cannot be validated before the year has been read)
+        for (doy, what) in [(0i64, "day of year 0"), (ylen + 1, "day of year beyond the year"), (367, "day of year 367"), (999, "day of year 999")] {
+            check_out_of_range_text(rep, &format!("{:03} {:04}", doy, y), Some("%j %Y"), what);
+            check_out_of_range_text(rep, &format!("{:03}/{:04} 10:20:30", doy, y), Some("%j/%Y %H:%M:%S"), what);
+            check_out_of_range_text(rep, &format!("10:20:30 {:03} {:04}", doy, y), Some("%H:%M:%S %j %Y"), what);
+            check_out_of_range_text(rep, &format!("{} {:04}", doy, y), Some("%J %Y"), what);
+            check_out_of_range_text(rep, &format!("{}.5 {:04}", doy.max(ylen + 1), y), Some("%J %Y"), "day of year beyond the year");
+        }
         check_out_of_range_text(rep, &format!("{:04} {}", y, ylen + 1), Some("%Y %J"), "day of year beyond the year");
         check_out_of_range_text(rep, &format!("{:04} {}.75", y, ylen + 1), Some("%Y %J"), "day of year beyond the year");
         let doy = 1 + (k * 7) % 365;
@@ -500,16 +508,58 @@ pub fn run(cfg: &Cfg, rep: &mut Rep) {
             continue;
         }
         for (m, d) in [(6u32, 30u32), (12, 31), (3, 31), (9, 30), (6, 29), (1, 1)] {
-            for (h, mi) in [(23u32, 59u32), (23, 58), (12, 59), (0, 0)] {
+            for (h, mi) in [(23u32, 59u32), (23, 58), (12, 59), (0, 0), (22, 59), (0, 59), (18, 29), (23, 0)] {
                 let (want, _) = super::c08::classify(&tab, y, m, d, h, mi, 60, 0);
                 if want == super::c08::Want::Reject {
                     for suffix in ["", " UTC", " TAI", "Z"] {
                         check_out_of_range(rep, y, m, d, h, mi, 60, suffix, "second 60 without a leap second");
                     }
+                    // ... and next to a UTC offset: rejected whenever neither the wall clock nor the instant it denotes
+                    // (wall clock minus offset) nor its mirror (wall clock plus offset) is 23:59 of an insertion day - in
+                    // particular when only the wrong-way shift lands there
+                    for (oh, om) in [(1i64, 0i64), (-1, 0), (5, 30), (-3, -30), (23, 0), (-23, 0), (0, 1), (0, -1)] {
+                        let off = oh * 60 + om;
+                        let wall = h as i64 * 60 + mi as i64;
+                        let day0 = cal::days_from_1900(y, m, d);
+                        let lands = |shift: i64| {
+                            let t = wall + shift;
+                            let (dd, tt) = (day0 + t.div_euclid(1440), t.rem_euclid(1440));
+                            let (yy, mm, d2) = cal::civil_from_days_1900(dd);
+                            tt == 23 * 60 + 59 && super::c08::classify(&tab, yy, mm, d2, 23, 59, 60, 0).0 != super::c08::Want::Reject
+                        };
+                        if lands(0) || lands(off) || lands(-off) {
+                            continue;
+                        }
+                        let txt = format!("{:04}-{:02}-{:02}T{:02}:{:02}:60{}{:02}:{:02}", y, m, d, h, mi, if off < 0 { '-' } else { '+' }, off.abs() / 60, off.abs() % 60);
+                        check_out_of_range_text(rep, &txt, None, "second 60 without a leap second");
+                    }
                     check_out_of_range_text(rep, &format!("{:04}-{:03}T{:02}:{:02}:60", y, cal::days_from_1900(y, m, d) - cal::days_from_1900(y, 1, 1) + 1, h, mi), Some("%Y-%jT%H:%M:%S"), "second 60 without a leap second");
                 } else if want == super::c08::Want::Accept {
                     rep.class("str/real-leap-second");
                     feed(rep, &format!("{:04}-{:02}-{:02}T23:59:60 UTC", y, m, d), "%Y-%m-%dT%H:%M:%S %T", "str/valid-iso", true);
+                }
+            }
+        }
+    }
+    // every one-letter token (known or not, with and without '?') after 0..=20 known tokens: a format specification is a
+    // value or an error at every fill level of its fixed-size item table, whatever the letter expands to
+    if !cfg.fuzz {
+        let known = ["%Y", "%m", "%d", "%H", "%M", "%S", "%f", "%j", "%A", "%a", "%B", "%b", "%T", "%z", "%y", "%w", "%J"];
+        let mut li = 0usize;
+        for fill in 0..=20usize {
+            let mut prefix = String::new();
+            for j in 0..fill {
+                prefix.push_str(known[(j * 5 + fill) % known.len()]);
+                prefix.push(['-', ' ', ':', 'T', '/'][j % 5]);
+            }
+            for c in 0x21u8..0x7f {
+                li += 1;
+                if li % n != sh {
+                    continue;
+                }
+                for tail in ["", "?", " %Y", "-%d %H"] {
+                    let f = format!("{prefix}%{}{tail}", c as char);
+                    feed(rep, "2022-01-01T10:20:30", &f, "fmt/letter-at-fill-level", true);
                 }
             }
         }
